@@ -799,7 +799,7 @@ def c10_cells(tier):
     halves = [(0, 9), (10, 25)]
     for mbs, mcb in ((2, 1), (2, 2)):
         for sfx, pre in product_pre([parts('gaps[1]', halves), parts('gaps[2]', halves), parts('gaps[3]', halves)]):
-            isq = (mbs, mcb) == (2, 1) and sfx.startswith('0')
+            isq = (mbs, mcb) == (2, 1) and (sfx.startswith('0') or sfx == '100')
             out.append(Cell(name='c10_n4_mbs%d_mcb%d_p%s' % (mbs, mcb, sfx), sig='gaps: List[int], dur: int',
                             pre=['len(gaps) == 4 and gaps[0] == 0 and 0 <= dur <= 30', pre],
                             body='H.scen_c10(gaps, dur, %d, %d)' % (mbs, mcb), tier=q if isq else 'thorough',
